@@ -95,55 +95,61 @@ impl TimeZone {
     }
 
     pub(crate) fn to_local_time_type(&self, timestamp: i64) -> LocalTimeType {
-        match self.transitions[..] {
-            [] => match &self.extra_rule {
-                Some(rule) => match rule {
-                    TransitionRule::Fixed(local_time_type) => local_time_type.clone(),
-                    TransitionRule::Alternate(altt) => {
-                        let std_end_timestamp = altt.local_std_end_timestamp(timestamp);
-                        let dst_end_timestamp = altt.local_dst_end_timestamp(timestamp);
+        // The transition table covers everything before its last transition. From the last transition on (or
+        // without any transition), the footer rule decides, if there is one.
+        let covered_by_table = match self.transitions.last() {
+            Some(last) => timestamp < last.unix_leap_time || self.extra_rule.is_none(),
+            None => false,
+        };
 
-                        let std_end_unix = std_end_timestamp - altt.std.utoff as i64;
-                        let dst_end_unix = dst_end_timestamp - altt.dst.utoff as i64;
+        if covered_by_table {
+            let mut local_time_type_index = 0;
+            for transition in self.transitions.iter().rev() {
+                if transition.unix_leap_time <= timestamp {
+                    local_time_type_index = transition.local_time_type_index;
+                    break;
+                }
+            }
+            return self.local_time_types[local_time_type_index].clone();
+        }
 
-                        match timestamp {
-                            // std end is before dst end
-                            // timestamp is after time changed to dst
-                            timestamp
-                                if std_end_unix < dst_end_unix
-                                    && std_end_unix <= timestamp
-                                    && timestamp < dst_end_unix =>
-                            {
-                                altt.dst.clone()
-                            }
-                            // std is before dst
-                            // timestamp is in std range
-                            _ if std_end_unix < dst_end_unix => altt.std.clone(),
-                            // dst end is before std end
-                            // timestamp is after time changed to std
-                            timestamp
-                                if dst_end_unix < std_end_unix
-                                    && dst_end_unix <= timestamp
-                                    && timestamp < std_end_unix =>
-                            {
-                                altt.std.clone()
-                            }
-                            _ => altt.dst.clone(),
+        match &self.extra_rule {
+            Some(rule) => match rule {
+                TransitionRule::Fixed(local_time_type) => local_time_type.clone(),
+                TransitionRule::Alternate(altt) => {
+                    let std_end_timestamp = altt.local_std_end_timestamp(timestamp);
+                    let dst_end_timestamp = altt.local_dst_end_timestamp(timestamp);
+
+                    let std_end_unix = std_end_timestamp - altt.std.utoff as i64;
+                    let dst_end_unix = dst_end_timestamp - altt.dst.utoff as i64;
+
+                    match timestamp {
+                        // std end is before dst end
+                        // timestamp is after time changed to dst
+                        timestamp
+                            if std_end_unix < dst_end_unix
+                                && std_end_unix <= timestamp
+                                && timestamp < dst_end_unix =>
+                        {
+                            altt.dst.clone()
                         }
-                    }
-                },
-                None => self.local_time_types[0].clone(),
-            },
-            _ => {
-                let mut local_time_type_index = 0;
-                for transition in self.transitions.iter().rev() {
-                    if transition.unix_leap_time < timestamp {
-                        local_time_type_index = transition.local_time_type_index;
-                        break;
+                        // std is before dst
+                        // timestamp is in std range
+                        _ if std_end_unix < dst_end_unix => altt.std.clone(),
+                        // dst end is before std end
+                        // timestamp is after time changed to std
+                        timestamp
+                            if dst_end_unix < std_end_unix
+                                && dst_end_unix <= timestamp
+                                && timestamp < std_end_unix =>
+                        {
+                            altt.std.clone()
+                        }
+                        _ => altt.dst.clone(),
                     }
                 }
-                self.local_time_types[local_time_type_index].clone()
-            }
+            },
+            None => self.local_time_types[0].clone(),
         }
     }
 }
